@@ -81,6 +81,8 @@ func oracleFor(op *Sexp, res string) []string {
 		return oracleJRT(op, res)
 	case "jdeep":
 		return oracleJDeep(op, res)
+	case "build":
+		return oracleBuild(op, res)
 	case "buildself":
 		if res != "err" {
 			bad("a type that refers to itself without a struct in between must be rejected with an error, got %q", res)
@@ -135,6 +137,18 @@ func oracleFor(op *Sexp, res string) []string {
 		}
 		if fields[3] != strconv.FormatInt(v, 10) || fields[4] != strconv.Itoa(len(ref)) {
 			bad("ReadVarInt(append(%d)) = (%s,%s)", v, fields[3], fields[4])
+		}
+	case "readu":
+		d, _ := unhx(arg(1))
+		v, n := refUvarint(d)
+		if want := fmt.Sprintf("%d %d", v, n); res != want {
+			bad("ReadVarUint(%s) = (%s), a base-128 varint reader gives (%s)", arg(1), res, want)
+		}
+	case "readtag":
+		d, _ := unhx(arg(1))
+		v, n := refUvarint(d)
+		if want := fmt.Sprintf("%d %d %d", v&7, int(v>>3), n); res != want {
+			bad("ReadTag(%s) = (%s), want (%s)", arg(1), res, want)
 		}
 	case "zag":
 		v, _ := atoiU(arg(1))
@@ -419,4 +433,25 @@ func (r *RNG) Pick3(a, b, c int) int {
 		return c
 	}
 	return r.Intn(b + 1)
+}
+
+// refUvarint: little-endian base-128 with the conventions ReadVarUint documents
+// by delegating to encoding/binary: (0, 0) when the input ends inside the varint,
+// (0, -(i+1)) when byte i makes the value overflow 64 bits (a tenth byte above 1,
+// or an eleventh byte).
+func refUvarint(d []byte) (uint64, int) {
+	var v uint64
+	for i, b := range d {
+		if i == 10 {
+			return 0, -(i + 1)
+		}
+		if b < 0x80 {
+			if i == 9 && b > 1 {
+				return 0, -(i + 1)
+			}
+			return v | uint64(b)<<(7*uint(i)), i + 1
+		}
+		v |= uint64(b&0x7f) << (7 * uint(i))
+	}
+	return 0, 0
 }
